@@ -19,6 +19,16 @@ m = {
  "not_applicable": [],
  "notes": "Solver-based checking of the real code; every verdict is a solver verdict over symbolic inputs within stated bounds. See DESIGN.md.",
 }
+_T = " Tiers: the quick tier is sized to finish within minutes on a CHANGED tree (nothing cached) and leaves to the thorough tier the obligations that need more than ~8 min of solver time: %s; they are listed under not_covered in the quick-tier evidence. The thorough tier decides everything."
+TIER_NOTE = {
+ "C06": _T % "L-sq-q, L-sq-r (U256::square on the release IR)",
+ "C07": _T % "L-sq-q/r range goals, k_conv_from_str_fq/fr, k_conv_fq2_from_slice",
+ "C08": _T % "k_dec_g1_compressed, k_dec_g2_raw, k_dec_g2_uncompressed, k_dec_g2_compressed (the quick tier keeps k_dec_g1_raw, k_dec_g1_uncompressed and all six length harnesses)",
+ "C09": _T % "the decoder funnel harnesses k_dec_g1_compressed and k_dec_g2_*",
+ "C12": _T % "k_conv_fq2_from_slice (content harness; the length harness stays)",
+ "C13": _T % "k_conv_from_str_fq/fr, k_conv_fq2_from_slice",
+ "C18": _T % "k_dec_g1_compressed, k_dec_g2_*, k_conv_fq2_from_slice",
+}
 for p in allp:
     if p in CHECKS:
         c = CHECKS[p]
@@ -26,7 +36,7 @@ for p in allp:
             "property_id": p, "quick_cmd": "./check %s --tier quick" % p, "thorough_cmd": "./check %s --tier thorough" % p,
             "evidence_file": "evidence/%s.json" % p, "replay_cmd_template": "./check %s --replay {path}" % p,
             "engine": c['engine'], "level_claimed": {"category": c.get('category', 'proof'), "text": c['text'], "design_ref": c['design_ref']},
-            "level_note": c['note'], "technique": c['technique']})
+            "level_note": c['note'] + TIER_NOTE.get(p, ''), "technique": c['technique']})
     else:
         m["not_applicable"].append({"property_id": p, "reason": NOT_APPLICABLE[p]})
 json.dump(m, open(os.path.join(os.path.dirname(os.path.abspath(__file__)), 'MANIFEST.json'), 'w'), indent=1)
